@@ -85,3 +85,18 @@ def absorb(chk, recs, label):
             chk.notes.append("%s: %d model mismatches next to violations, first: %s" % (label, len(mism), mism[0].get("what", "")[:300]))
             recs = [r for r in recs if r.get("kind") != "mismatch"]
     chk.absorb(recs, label)
+
+
+def new_violations(chk):
+    known = {k["key"] for k in chk.known}
+    return [v for v in chk.violations if v[0] not in known]
+
+
+def selftest(chk, name, recs):
+    """Binding self-test (a corrupted expectation must be reported).  On a tree that
+    already violates the property the chosen case may itself be affected, so the
+    self-test is only evaluated while no new violation has been found."""
+    if new_violations(chk):
+        chk.notes.append("binding self-test '%s' not evaluated: the run already found violations" % name)
+        return
+    chk.selftest(name, has_violation(recs))
